@@ -141,15 +141,15 @@ theorem C01_rem_dropped (child : Option ChildFn) (ctx : Ctx) (l : PreLine) (word
   have hns : (c.cname == "Start") = false := by rw [hc]; decide
   cases arg with
   | none =>
-    simp [compileSimple, simplePre, hfl, hns, htok, hty, hd, listifyArgs, hreq, verifyTypes, verifyArgsHook, hva, verifyEach,
+    simp [compileSimple, simplePre, prepareArgs, checkArgs, itemsOf, nameOf, hfl, hns, htok, hty, hd, listifyArgs, hreq, verifyTypes, verifyArgsHook, hva, verifyEach,
       multiComp, runCompile, hrun, hc, runCompileLocal, hcom]
   | some a =>
     by_cases ha : a.isEmpty = true
-    · simp [compileSimple, simplePre, hfl, hns, htok, hty, hd, listifyArgs, ha, hreq, verifyTypes, verifyArgsHook, hva, verifyEach,
+    · simp [compileSimple, simplePre, prepareArgs, checkArgs, itemsOf, nameOf, hfl, hns, htok, hty, hd, listifyArgs, ha, hreq, verifyTypes, verifyArgsHook, hva, verifyEach,
         multiComp, runCompile, hrun, hc, runCompileLocal, hcom]
     · have ha' : a.isEmpty = false := by simpa using ha
       cases hs : c.strip <;>
-      simp [compileSimple, simplePre, hfl, hns, htok, hty, hd, listifyArgs, listifyArgs.go, ha', hs, hreq, verifyTypes, typeOk,
+      simp [compileSimple, simplePre, prepareArgs, checkArgs, itemsOf, nameOf, hfl, hns, htok, hty, hd, listifyArgs, listifyArgs.go, ha', hs, hreq, verifyTypes, typeOk,
         isListVal, Arg.str, verifyArgsHook, hva, verifyEach, verifyArgHook, hv, formatArg, hf,
         multiComp, runCompile, hrun, hc, runCompileLocal, hcom]
 
